@@ -44,4 +44,22 @@ PROPS["C19"] = {
     "assumptions": ["header names are matched by net/http canonicalisation; the model receives headers as net/http parsed them"],
 }
 
+PROPS["C06"] = {
+    "parts": [{"name": "histories", "pkg": "c06", "chk": "chk_c06"}],
+    "reasons": {"histories": {
+        "1": "HTTP probe: a route that the latest descriptions contain is not found (or an absent one is refused with another code)",
+        "2": "HTTP probe: routed to data that is not the first matching binding of the latest description of a live target (stale description / closed target / wrong binding)",
+        "3": "gRPC probe: routed to something that is not a live target's latest description listing the service",
+        "4": "gRPC probe: service listed by exactly one live target is not routed",
+        "5": "Watch/Update/Close accepted or refused wrongly (a name can be watched iff it is not currently watched)",
+        "6": "wrong number of steps observed",
+        "7": "gRPC probe: service whose earlier claimant released it stays unroutable although exactly one live target still lists it (F17)",
+        "8": "gRPC probe: contested service not routed to the earlier, still standing claimant"}},
+    "rule": "random histories of 1-25 Watch/UpdateDesc/Close ops over 3 targets; descriptions draw services/methods/bindings from shared pools (so services move between targets, bindings are added, kept and dropped; 12% invalid templates; 25% methods without bindings); after every op 42 HTTP probes and 4 gRPC probes on both routers; non-trivial = history with >=1 applied update and >=1 close",
+    "level_text": "Coq theorems by induction over ALL histories with a representation invariant: the pattern table holds, per HTTP method, exactly one entry per live target with routes for it, carrying that target's latest description; a probe matched by at most one live target returns the first matching binding of that latest description; service table likewise for uncontested services; Watch succeeds iff not watched. Tied to the code by running histories on the real routers and comparing every probe.",
+    "level_note": "Trusted: Coq kernel, extraction, modelrun, Go harness. The template matcher is a parameter of the table theorems; the correspondence instantiates it with literal templates. sync.Map / atomic pointer atomicity is Go's.",
+    "design_ref": "DESIGN.md §3 C06",
+    "assumptions": ["contested routes: only 'the earlier standing claimant keeps it' is demanded (C14); otherwise any claimant is accepted"],
+}
+
 NOT_APPLICABLE = {}
